@@ -85,7 +85,7 @@ func c08commitBlock(sc *statecache.StateCache, hash, prev string, round int64, s
 	bc.Commit()
 }
 
-func newC08env(useE bool) *c08env {
+func newC08env(useE bool, full bool) *c08env {
 	e := &c08env{sc: statecache.NewStateCache(), committed: map[string]*int32{}, useE: useE}
 	for _, b := range []string{"A", "B", "C", "E", "B2", "D2", "F"} {
 		e.committed[b] = new(int32)
@@ -93,6 +93,14 @@ func newC08env(useE bool) *c08env {
 	c08commitBlock(e.sc, "A", "", 1, map[string]string{"k1": "a1", "k3": "a3"}, nil)
 	c08commitBlock(e.sc, "B", "A", 2, map[string]string{"x": "b1"}, nil)
 	*e.committed["A"], *e.committed["B"] = 1, 1
+	if full {
+		// fill k1's version map to exactly its capacity (200) with versions of unrelated sibling forks of B, then make
+		// A's entry the most recently used one, so that the few entries added during a schedule evict only those forks
+		for i := 1; i <= 199; i++ {
+			c08commitBlock(e.sc, fmt.Sprintf("X%d", i), "A", 2, map[string]string{"k1": fmt.Sprintf("x%d", i)}, nil)
+		}
+		e.sc.Get("k1", "A")
+	}
 	var tc *statecache.TransactionCache
 	e.bcC, tc = statecache.NewBlockTxnCaches(e.sc, statecache.Block{Round: 3, Hash: "C", PrevHash: "B"})
 	tc.Set("k1", statecache.String("c1"))
@@ -247,48 +255,55 @@ func (e *c08env) sweep() string {
 type c08scenario struct {
 	name  string
 	useE  bool
+	full  bool // k1's version map is filled to its capacity before the schedule
 	parts func(e *c08env) (names []string, fns []func())
 }
 
 var c08scenarios = []c08scenario{
-	{"commitC | k1@B | k1@C", false, func(e *c08env) ([]string, []func()) {
+	{"commitC | k1@B | k1@C", false, false, func(e *c08env) ([]string, []func()) {
 		return []string{"commit", "r1", "r2"}, []func(){e.commitC, func() { e.readState("r1", "k1", "B") }, func() { e.readState("r2", "k1", "C") }}
 	}},
-	{"commitC | k3@C,k2@C | k3@B", false, func(e *c08env) ([]string, []func()) {
+	{"commitC | k3@C,k2@C | k3@B", false, false, func(e *c08env) ([]string, []func()) {
 		return []string{"commit", "r1", "r2"}, []func(){e.commitC, func() { e.readState("r1", "k3", "C"); e.readState("r1", "k2", "C") }, func() { e.readState("r2", "k3", "B") }}
 	}},
-	{"commitC | D.block k1 | D.txn k2,k4", false, func(e *c08env) ([]string, []func()) {
+	{"commitC | D.block k1 | D.txn k2,k4", false, false, func(e *c08env) ([]string, []func()) {
 		return []string{"commit", "r1", "r2"}, []func(){e.commitC, func() { e.readD("r1", "k1", false) }, func() { e.readD("r2", "k2", true); e.readD("r2", "k4", true) }}
 	}},
-	{"commitC | k1@C | k1@C", false, func(e *c08env) ([]string, []func()) {
+	{"commitC | k1@C | k1@C", false, false, func(e *c08env) ([]string, []func()) {
 		return []string{"commit", "r1", "r2"}, []func(){e.commitC, func() { e.readState("r1", "k1", "C") }, func() { e.readQuery("r2", "k1", "C") }}
 	}},
-	{"commitC | k1@A,k1@C | k3@B,x@C", false, func(e *c08env) ([]string, []func()) {
+	{"commitC | k1@A,k1@C | k3@B,x@C", false, false, func(e *c08env) ([]string, []func()) {
 		return []string{"commit", "r1", "r2"}, []func(){e.commitC, func() { e.readState("r1", "k1", "A"); e.readState("r1", "k1", "C") }, func() { e.readState("r2", "k3", "B"); e.readState("r2", "x", "C") }}
 	}},
-	{"commitC | k1@B,k1@C | k1@C,k1@C", false, func(e *c08env) ([]string, []func()) {
+	{"commitC | k1@B,k1@C | k1@C,k1@C", false, false, func(e *c08env) ([]string, []func()) {
 		return []string{"commit", "r1", "r2"}, []func(){e.commitC, func() { e.readState("r1", "k1", "B"); e.readState("r1", "k1", "C") }, func() { e.readState("r2", "k1", "C"); e.readState("r2", "k1", "C") }}
 	}},
-	{"commitC;commitE | k1@E | k1@C,k2@E", true, func(e *c08env) ([]string, []func()) {
+	{"commitC;commitE | k1@E | k1@C,k2@E", true, false, func(e *c08env) ([]string, []func()) {
 		return []string{"commit", "r1", "r2"}, []func(){e.commitC, func() { e.readState("r1", "k1", "E") }, func() { e.readState("r2", "k1", "C"); e.readState("r2", "k2", "E") }}
 	}},
-	{"out of order: D2 committed before its parent; commitB2 | k1@D2 | k1@D2,k1@B2", false, func(e *c08env) ([]string, []func()) {
+	{"out of order: D2 committed before its parent; commitB2 | k1@D2 | k1@D2,k1@B2", false, false, func(e *c08env) ([]string, []func()) {
 		e.extra = []string{"B2", "D2"}
 		return []string{"commit", "r1", "r2"}, []func(){e.commitB2, func() { e.readState("r1", "k1", "D2") }, func() { e.readQuery("r2", "k1", "D2"); e.readState("r2", "k1", "B2") }}
 	}},
-	{"out of order: commitB2 | k5@D2,k1@D2 | k3@D2", false, func(e *c08env) ([]string, []func()) {
+	{"out of order: commitB2 | k5@D2,k1@D2 | k3@D2", false, false, func(e *c08env) ([]string, []func()) {
 		e.extra = []string{"B2", "D2"}
 		return []string{"commit", "r1", "r2"}, []func(){e.commitB2, func() { e.readState("r1", "k5", "D2"); e.readState("r1", "k1", "D2") }, func() { e.readState("r2", "k3", "D2") }}
 	}},
-	{"two committers: commitC | commitF | k2@C,k6@F", false, func(e *c08env) ([]string, []func()) {
+	{"two committers: commitC | commitF | k2@C,k6@F", false, false, func(e *c08env) ([]string, []func()) {
 		e.extra = []string{"F"}
 		return []string{"commit", "commitF", "r1"}, []func(){e.commitC, e.commitF, func() { e.readState("r1", "k2", "C"); e.readState("r1", "k6", "F") }}
 	}},
-	{"two committers: commitF | commitC | k2@F | k2@C", false, func(e *c08env) ([]string, []func()) {
+	{"two committers: commitF | commitC | k2@F | k2@C", false, false, func(e *c08env) ([]string, []func()) {
 		e.extra = []string{"F"}
 		return []string{"commit", "commitC", "r1", "r2"}, []func(){e.commitF, e.commitC, func() { e.readState("r1", "k2", "F") }, func() { e.readState("r2", "k2", "C") }}
 	}},
-	{"commitC | k1@C | k2@C | D.block k3", false, func(e *c08env) ([]string, []func()) {
+	{name: "k1's version map at capacity: commitC | k1@B | k1@C", full: true, parts: func(e *c08env) ([]string, []func()) {
+		return []string{"commit", "r1", "r2"}, []func(){e.commitC, func() { e.readState("r1", "k1", "B") }, func() { e.readState("r2", "k1", "C") }}
+	}},
+	{name: "k1's version map at capacity: commitC | k1@C | k1@C,k2@C", full: true, parts: func(e *c08env) ([]string, []func()) {
+		return []string{"commit", "r1", "r2"}, []func(){e.commitC, func() { e.readState("r1", "k1", "C") }, func() { e.readQuery("r2", "k1", "C"); e.readState("r2", "k2", "C") }}
+	}},
+	{"commitC | k1@C | k2@C | D.block k3", false, false, func(e *c08env) ([]string, []func()) {
 		return []string{"commit", "r1", "r2", "r3"}, []func(){e.commitC, func() { e.readState("r1", "k1", "C") }, func() { e.readState("r2", "k2", "C") }, func() { e.readD("r3", "k3", false) }}
 	}},
 }
@@ -298,7 +313,7 @@ type c08preempt struct{ step, to int }
 // runSchedule executes one scenario under a chooser; returns the trace, the environment and an error if stuck.
 func c08run(sn c08scenario, choose func(live []int, last, step int) int) ([]sched.Step, *c08env, []string, error) {
 	c08setHook(nil)
-	e := newC08env(sn.useE)
+	e := newC08env(sn.useE, sn.full)
 	s := sched.New()
 	names, fns := sn.parts(e)
 	parts := make([]*sched.Part, len(fns))
@@ -742,7 +757,7 @@ func init() {
 		EvalCounters: []string{"schedules", "free_runs"},
 		Level:        "exploration",
 		Race:         true,
-		Rule: "Mode A (controlled schedules through the verif yield hook, one yield before every shared-map access of StateCache.Get/commit): 12 small scenarios (ancestors A<-B committed; C, child of B, writing k1,k2 and removing k3, being committed by one participant, in one scenario followed by its child E; two scenarios commit a parent AFTER its already committed child; two scenarios run a second committer for a sibling block writing a brand-new key (the scheduler sets a participant aside while it is blocked on a real lock); " +
+		Rule: "Mode A (controlled schedules through the verif yield hook, one yield before every shared-map access of StateCache.Get/commit): 14 small scenarios (ancestors A<-B committed; C, child of B, writing k1,k2 and removing k3, being committed by one participant, in one scenario followed by its child E; two scenarios commit a parent AFTER its already committed child; two scenarios start with k1's per-key version map filled to exactly its 200-entry capacity; two scenarios run a second committer for a sibling block writing a brand-new key (the scheduler sets a participant aside while it is blocked on a real lock); " +
 			"2-3 reader participants issuing 1-2 lookups at A, B, C, E and through the block/transaction cache of an open child D). Schedules: breadth-first enumeration of all schedules with at most 3 (quick) / 4 (thorough) preemptions up to a cap, uniform random schedules, PCT-style priority schedules. " +
 			"Oracle: every hit equals the value the block tree determines; lookups at contexts committed before the run, of own uncommitted entries, and lookups started after Commit returned must hit; a quiescent sweep re-reads every (key, block). " +
 			"Mode B: 2-6 committers each extending its own fork, 4-10 readers, GOMAXPROCS in {1,2,4,16}, the hook injects Gosched/µs sleeps; same oracle on the recorded results plus post-commit visibility; the whole check runs in the -race binary and every distinct race report is a violation. " +
